@@ -491,10 +491,38 @@ class MapfileTransformer(Transformer):
             [str(v.value) for v in t]
         )  # convert to string for boolean expressions e.g. (true)
 
-        if not self.quoter.in_parenthesis(exp):
+        if not self._in_matching_parenthesis(exp):
             t[0].value = f"({exp})"
 
         return t[0]
+
+    def _in_matching_parenthesis(self, exp: str) -> bool:
+        """
+        Check that the first and last brackets of an expression are a matching pair, so
+        "(a) - (b)" is not mistaken for an expression that is already in brackets
+        """
+        exp = exp.strip()
+        if not self.quoter.in_parenthesis(exp):
+            return False
+
+        depth = 0
+        quote = None
+        last = len(exp) - 1
+
+        for i, ch in enumerate(exp):
+            if quote:
+                if ch == quote:
+                    quote = None
+            elif ch in "\"'`":
+                quote = ch
+            elif ch == "(":
+                depth += 1
+            elif ch == ")":
+                depth -= 1
+                if depth == 0 and i < last:
+                    return False
+
+        return True
 
     def add(self, t):
         assert len(t) == 2
